@@ -22,8 +22,10 @@ package funcGen
 //@   requires[stack] validStack(stack)
 //@   requires[slots] (fs(self) >= 0 ==> stack.size == fs(self)) && (fs(self) < 0 ==> stack.size >= fsmin(self))
 //@   requires[context] len(closureStore) >= cl(self)
+//@   rely[values] slotsNonNil(stack) && (forall i in 0..len(closureStore) :: nonnil(closureStore[i]))
 //@   ensures result1 == nil ==> nonnil(result0)
 //@   ensures stack.storage.data == old(stack.storage.data) || len(stack.storage.data) >= old(len(stack.storage.data))
+//@   ensures[storage-array] ref(stack.storage.data) == old(ref(stack.storage.data)) || fresh(stack.storage.data)
 //@   ensures forall i in 0..stack.offs+stack.size :: stack.storage.data[i] == old(stack.storage.data[i])
 //@   assigns any value.List.items, any value.List.itemsPresent, any value.List.iterable, any stackStorage[V].data, any []V
 
@@ -33,6 +35,220 @@ package funcGen
 //@ interface-contract OperatorImpl.Calc
 //@   option no-impl-check
 //@   requires validStack(st)
+//@   ensures result1 == nil ==> nonnil(result0)
 //@   ensures len(st.storage.data) >= old(len(st.storage.data))
+//@   ensures[storage-array] ref(st.storage.data) == old(ref(st.storage.data)) || fresh(st.storage.data)
 //@   ensures forall i in 0..st.offs+st.size :: st.storage.data[i] == old(st.storage.data[i])
 //@   assigns any value.List.items, any value.List.itemsPresent, any value.List.iterable, any stackStorage[V].data, any []V
+
+// ---------------------------------------------------------------- C01: linking invariants of the code generator
+// Frame of the generator functions: `any []string` because the "not found" error path appends to the caller's name
+// list (append(gc.am, gc.cm...)) and may overwrite its spare capacity; nothing else is written.
+//
+// Slot agreement: every compiled function f is only ever called with exactly fs(f) occupied stack slots and a closure
+// context of at least cl(f) entries; GenerateFunc returns functions compiled for fs = len(gc.am), cl = len(gc.cm).
+// Every function literal created by the generator is verified, where it is created, against the ParserFunc contract.
+
+// the AST is not modified after parsing
+//@ immutable parser2.ClosureLiteral.Names, parser2.ClosureLiteral.OuterIdents, parser2.ClosureLiteral.Recursive, parser2.Ident.Name, parser2.MapAccess.Key, parser2.MethodCall.Name
+
+//@ func (am argsList) get
+//@   property C01
+//@   safety C04
+//@   ensures[found] result1 ==> 0 <= result0 && result0 < len(am) && am[result0] == name && (forall j in 0..result0 :: am[j] != name)
+//@   ensures[absent] !result1 ==> (forall j in 0..len(am) :: am[j] != name)
+//@   assigns nothing
+//@   loop 1 invariant 0 <= rangeidx && rangeidx <= len(am) && (forall j in 0..rangeidx :: am[j] != name)
+
+//@ func (am argsList) add
+//@   property C01
+//@   safety C04
+//@   ensures[appended] result1 == nil ==> len(result0) == len(am)+1 && result0[len(am)] == name && (forall j in 0..len(am) :: result0[j] == old(am[j]))
+//@   ensures[no-redeclaration] result1 == nil ==> (forall j in 0..len(am) :: am[j] != name)
+//@   ensures[backing] result1 == nil ==> ref(result0) == ref(am) || fresh(result0)
+//@   assigns am[*]
+//@   loop 1 invariant 0 <= rangeidx && rangeidx <= len(am) && (forall j in 0..rangeidx :: am[j] != name)
+
+// copyAndAdd never writes the caller's list (a let in one branch must not become visible in a sibling)
+//@ func (am argsList) copyAndAdd
+//@   property C01
+//@   safety C04
+//@   ensures[appended] result1 == nil ==> len(result0) == len(am)+1 && result0[len(am)] == name && (forall j in 0..len(am) :: result0[j] == old(am[j]))
+//@   ensures[fresh] result1 == nil ==> fresh(result0)
+//@   assigns nothing
+
+//@ func (c GeneratorContext) addLocalVar
+//@   property C01
+//@   safety C04
+//@   ensures[one-more-slot] result1 == nil ==> len(result0.am) == len(c.am)+1 && result0.am[len(c.am)] == name && result0.cm == c.cm && (forall j in 0..len(c.am) :: result0.am[j] == old(c.am[j]))
+//@   assigns nothing
+
+//@ predicate funcOK(f any) = f.Func != nil && (f.Args >= 0 ==> fs(f.Func) == f.Args) && (f.Args < 0 ==> fs(f.Func) < 0 && fsmin(f.Func) <= 1) && cl(f.Func) == 0
+// functions callable from expression code with any number of arguments (static functions, closures)
+//@ predicate staticOK(f any) = f.Func != nil && (f.Args >= 0 ==> fs(f.Func) == f.Args) && (f.Args < 0 ==> fs(f.Func) < 0 && fsmin(f.Func) <= 0) && cl(f.Func) == 0
+
+// host-side handlers: what the generated code relies on
+//@ interface-contract Generator.GenerateCustom
+//@   property C01
+//@   option params=ast,gc,g
+//@   requires g != nil && ast != nil
+//@   ensures[compiled-for-context] result2 == nil && result0 != nil ==> fs(result0) == len(gc.am) && cl(result0) == len(gc.cm)
+//@   assigns any []string
+//@ interface-contract UnaryOperatorImpl.Calc
+//@   option no-impl-check
+//@   ensures result1 == nil ==> nonnil(result0)
+//@   assigns nothing
+//@ type-contract ToBool
+//@   option params=c
+//@   requires self != nil
+//@   assigns nothing
+//@ type-contract BoolFunc
+//@   option params=st,a,b
+//@   requires self != nil && validStack(st)
+//@   ensures len(st.storage.data) >= old(len(st.storage.data))
+//@   ensures[storage-array] ref(st.storage.data) == old(ref(st.storage.data)) || fresh(st.storage.data)
+//@   ensures forall i in 0..st.offs+st.size :: st.storage.data[i] == old(st.storage.data[i])
+//@   assigns any value.List.items, any value.List.itemsPresent, any value.List.iterable, any stackStorage[V].data, any []V
+//@ interface-contract ListHandler.FromList
+//@   option no-impl-check
+//@   ensures nonnil(result)
+//@   assigns nothing
+//@ interface-contract ListHandler.AccessList
+//@   option no-impl-check
+//@   ensures result1 == nil ==> nonnil(result0)
+//@   assigns any value.List.items, any value.List.itemsPresent, any value.List.iterable
+//@ interface-contract MapHandler.FromMap
+//@   option no-impl-check
+//@   ensures nonnil(result)
+//@   assigns nothing
+//@ interface-contract MapHandler.AccessMap
+//@   option no-impl-check
+//@   ensures result1 == nil ==> nonnil(result0)
+//@   assigns nothing
+//@ interface-contract MapHandler.IsMap
+//@   option no-impl-check
+//@   assigns nothing
+//@ interface-contract ClosureHandler.FromClosure
+//@   option no-impl-check
+//@   requires[function-invariant] staticOK(c)
+//@   ensures nonnil(result)
+//@   assigns nothing
+//@ interface-contract ClosureHandler.ToClosure
+//@   option no-impl-check
+//@   option params=c
+//@   ensures result1 ==> staticOK(result0)
+//@   assigns nothing
+//@ interface-contract MethodHandler.GetMethod
+//@   option no-impl-check
+//@   ensures result1 == nil ==> result0.Func != nil && (result0.Args == -1 || result0.Args >= 1) && (result0.Args >= 1 ==> fs(result0.Func) == result0.Args) && (result0.Args == -1 ==> fs(result0.Func) < 0 && fsmin(result0.Func) <= 1) && cl(result0.Func) == 0
+//@   assigns nothing
+
+// registered static functions: what AddStaticFunction is given (the registered literals are verified, one unit per
+// table entry, for exactly this frame: size == Args, or any size for Args < 0)
+//@ predicate compiledFor(f any, gc any) = f != nil && fs(f) == len(gc.am) && cl(f) == len(gc.cm)
+
+// text rendering used in error messages only: no effect on program state (trusted)
+//@ func (f *FunctionDescription) String
+//@   trusted
+//@   assigns nothing
+//@ func (f *FunctionDescription) StringArgs
+//@   trusted
+//@   assigns nothing
+//@ func (f *FunctionDescription) WriteTo
+//@   trusted
+//@   assigns log(b)
+
+//@ func (g *FunctionGenerator[V]) generateStaticFunctionDocu
+//@   trusted
+//@   ensures result != nil
+//@   assigns nothing
+
+//@ func (g *FunctionGenerator[V]) genFuncList
+//@   property C01
+//@   safety C04
+//@   requires g != nil
+//@   requires[ast-present] forall i in 0..len(a) :: a[i] != nil
+//@   ensures[each-compiled-for-context] result2 == nil ==> len(result0) == len(a) && fresh(result0) && (forall i in 0..len(a) :: compiledFor(result0[i], gc))
+//@   assigns any []string
+//@   loop 1 invariant 0 <= rangeidx && rangeidx <= len(a) && len(args) == len(a) && fresh(args) && (forall i in 0..rangeidx :: compiledFor(args[i], gc))
+
+// pending call arguments occupy anonymous slots behind the named ones
+//@ func (c GeneratorContext) addPendingArgs
+//@   property C01
+//@   safety C04
+//@   requires n >= 0
+//@   ensures[pending-slots] len(result.am) == len(c.am)+n && result.cm == c.cm && (forall j in 0..len(c.am) :: result.am[j] == old(c.am[j]))
+//@   assigns nothing
+//@   loop 1 invariant 0 <= i && i <= n && len(am) == len(c.am)+i && fresh(am) && (forall j in 0..len(c.am) :: am[j] == old(c.am[j]))
+
+// argument i of a call is evaluated when pending+i values have already been pushed
+//@ func (g *FunctionGenerator[V]) genArgList
+//@   property C01
+//@   safety C04
+//@   requires g != nil && pending >= 0
+//@   requires[ast-present] forall i in 0..len(a) :: a[i] != nil
+//@   ensures[each-compiled-for-its-slot] result2 == nil ==> len(result0) == len(a) && fresh(result0) && (forall i in 0..len(a) :: result0[i] != nil && fs(result0[i]) == len(gc.am)+pending+i && cl(result0[i]) == len(gc.cm))
+//@   assigns any []string
+//@   loop 1 invariant 0 <= rangeidx && rangeidx <= len(a) && len(args) == len(a) && fresh(args) && (forall i in 0..rangeidx :: args[i] != nil && fs(args[i]) == len(gc.am)+pending+i && cl(args[i]) == len(gc.cm))
+
+//@ func (g *FunctionGenerator[V]) genCodeMap
+//@   trusted
+//@   requires g != nil
+//@   assigns any []string
+
+//@ func (g *FunctionGenerator[V]) createClosureLiteralFunc
+//@   property C01
+//@   safety C04
+//@   requires g != nil && a != nil
+//@   ensures[compiled-for-context] result2 == nil ==> compiledFor(result0, gc)
+//@   assigns any []string
+// TRUSTED literal: the code that builds a closure value and copies the captured outer values into its context
+// (nested function literals and a function type local to createClosureLiteralFunc are outside the engine's subset)
+//@   closure-spec "closureContext := make([]V, len(accessContextOperations))" as ParserFunc attr fs(self) = len(gc.am), cl(self) = len(gc.cm) trusted
+
+//@ func (g *FunctionGenerator[V]) GenerateFunc
+//@   property C01
+//@   safety C04
+//@   requires g != nil
+//@   requires[ast-present] ast != nil
+//@   ensures[compiled-for-context] result2 == nil ==> compiledFor(result0, gc)
+//@   assigns any []string
+//@   loop 1 invariant 0 <= rangeidx && rangeidx <= len(a.Cases) && (forall i in 0..len(cases) :: compiledFor(cases[i].constFunc, gc) && compiledFor(cases[i].resultFunc, gc)) && (cap(cases) == 0 || fresh(cases))
+//@   closure-spec "return a.Value, nil" as ParserFunc attr fs(self) = len(gc.am), cl(self) = len(gc.cm) assume nonnil(a.Value)
+//@   closure-spec "return st.Get(index), nil" as ParserFunc attr fs(self) = len(gc.am), cl(self) = len(gc.cm)
+//@   closure-spec "return cs[index], nil" as ParserFunc attr fs(self) = len(gc.am), cl(self) = len(gc.cm)
+//@   closure-spec "st.Push(va)" as ParserFunc attr fs(self) = len(gc.am), cl(self) = len(gc.cm)
+//@   closure-spec "g.toBool(condVal)" as ParserFunc attr fs(self) = len(gc.am), cl(self) = len(gc.cm) assume g.toBool != nil
+//@   closure-spec "error in switch-case" as ParserFunc attr fs(self) = len(gc.am), cl(self) = len(gc.cm) assume g.isEqual != nil
+//@   closure-spec "catchFunc(st, cs)" as ParserFunc attr fs(self) = len(gc.am), cl(self) = len(gc.cm)
+//@   closure-spec "return op.Calc(v)" as ParserFunc attr fs(self) = len(gc.am), cl(self) = len(gc.cm) assume op != nil
+//@   closure-spec "return op.Calc(st, aVal, bVal)" as ParserFunc attr fs(self) = len(gc.am), cl(self) = len(gc.cm) assume op != nil
+//@   closure-spec "Func: closureFunc," as ParserFunc attr fs(self) = len(gc.am), cl(self) = len(gc.cm) assume g.closureHandler != nil
+//@   closure-spec "List literal error" as ParserFunc attr fs(self) = len(gc.am), cl(self) = len(gc.cm) assume g.listHandler != nil
+//@   closure-spec "g.listHandler.AccessList(l, i)" as ParserFunc attr fs(self) = len(gc.am), cl(self) = len(gc.cm) assume g.listHandler != nil
+//@   closure-spec "Map literal error" as ParserFunc attr fs(self) = len(gc.am), cl(self) = len(gc.cm) trusted
+//@   closure-spec "g.mapHandler.AccessMap(l, a.Key)" as ParserFunc attr fs(self) = len(gc.am), cl(self) = len(gc.cm) assume g.mapHandler != nil
+//@   closure-spec "fun.Func(st.CreateFrame(len(argsFuncList)), nil)" as ParserFunc attr fs(self) = len(gc.am), cl(self) = len(gc.cm) assume staticOK(fun)
+//@   closure-spec "error in getting function" as ParserFunc attr fs(self) = len(gc.am), cl(self) = len(gc.cm)
+//@   closure-spec "error accessing method" as ParserFunc attr fs(self) = len(gc.am), cl(self) = len(gc.cm)
+
+// the loops of the generated code: every argument is evaluated in the frame it was compiled for and then pushed
+//@ predicate frameKept(st any, s0 any, n int) = validStack(st) && slotsNonNil(st) && st.storage == s0.storage && st.offs == s0.offs && st.size == s0.size+n && len(st.storage.data) >= old(len(s0.storage.data)) && (ref(st.storage.data) == old(ref(s0.storage.data)) || fresh(st.storage.data)) && (forall i in 0..s0.offs+s0.size :: st.storage.data[i] == old(s0.storage.data[i]))
+
+//@ closure FunctionGenerator.GenerateFunc anchor "error in switch-case"
+//@   option body-only
+//@   loop 1 invariant frameKept(st, old(st), 0) && 0 <= rangeidx
+//@ closure FunctionGenerator.GenerateFunc anchor "List literal error"
+//@   option body-only
+//@   loop 1 invariant frameKept(st, old(st), 0) && 0 <= rangeidx && rangeidx <= len(itemFuncs) && len(itemValues) == len(itemFuncs) && fresh(itemValues)
+//@   loop 1 invariant ref(st.storage.data) == old(ref(st.storage.data)) || calleefresh(st.storage.data)
+//@ closure FunctionGenerator.GenerateFunc anchor "fun.Func(st.CreateFrame(len(argsFuncList)), nil)"
+//@   option body-only
+//@   loop 1 invariant frameKept(st, old(st), rangeidx) && 0 <= rangeidx && rangeidx <= len(argsFuncList)
+//@ closure FunctionGenerator.GenerateFunc anchor "error in getting function"
+//@   option body-only
+//@   loop 1 invariant frameKept(st, old(st), rangeidx) && 0 <= rangeidx && rangeidx <= len(argsFuncList)
+//@ closure FunctionGenerator.GenerateFunc anchor "error accessing method"
+//@   option body-only
+//@   loop 1 invariant frameKept(st, old(st), rangeidx) && 0 <= rangeidx && rangeidx <= len(argsFuncList)
+//@   loop 2 invariant frameKept(st, old(st), rangeidx+1) && 0 <= rangeidx && rangeidx <= len(methodArgsFuncList)
